@@ -77,9 +77,7 @@ def specFinAt (P : Params W) (outlen buflen : Nat) (key msg : Bytes) : String :=
 /-- `hashing::blake2x_nnn(input)` = `Blake2x::<nnn>::new().update(input).finalize()` -/
 def implFixed (P : Params W) (bits : Nat) (msg : Bytes) : String :=
   orPanic do
-    let c ← Impl.Blake2.Context.new P bits
-    let c ← Impl.Blake2.Context.update P pr c msg
-    let a ← Impl.Blake2.Context.finalize P pr bits c
+    let a ← Impl.Blake2.hashing_blake2 P pr bits msg
     pure s!"{Hex.encode a},{Hex.encode a}"
 
 def specFixed (P : Params W) (bits : Nat) (msg : Bytes) : String :=
